@@ -346,6 +346,15 @@ func c01WrongIdentity(r *ev.Run, g *rng.R) {
 	}
 }
 
+// shortQueueStack: non-reassembling layers over the in-memory transport that also get (fewer) short-queue runs.
+func shortQueueStack(name string) bool {
+	switch name {
+	case "mux-string(mem)", "mux-varint(mem)", "multi{mem,mem}", "map(mem)", "wl(mem)", "p2pke(mem)":
+		return true
+	}
+	return false
+}
+
 func runC01(r *ev.Run) {
 	r.Rule = "per stack: 3 nodes, several concurrent senders and receivers per node, all pairs, payload lengths {0,1,2,3,15..19,31..33,63..65, fragment boundaries +-1, MTU-1, MTU} plus random, IOVecs of 1-5 segments, replies to the observed source address (half from inside the callback), seeded delays at hook points; every delivered payload is looked up (sha256) in a ledger of unique self-describing payloads: must have been told to this receiver, Src must name the teller, Dst the receiver; callback buffers are checksummed and scribbled (0xDD), sender buffers compared and overwritten (0xEE) after Tell. Losses and duplicates are counted, not judged. On stacks whose addresses carry an identity, a Tell to identity X at node Y's transport address must not reach Y. non-trivial = a delivery observed and matched; distinct = (stack, length class)"
 	stacks := allStacks()
@@ -365,6 +374,8 @@ func runC01(r *ev.Run) {
 		shortq := 0
 		if sf.Name == "frag(mem)" || sf.Name == "mbapp(mem)" {
 			shortq = pick(r, 2, 4)
+		} else if shortQueueStack(sf.Name) {
+			shortq = pick(r, 1, 2) // any layer over a buffer-recycling transport may be tempted to keep a reference past the callback
 		}
 		skewed := 0
 		if sf.Name == "frag(mem)" || sf.Name == "mbapp(mem)" || sf.Name == "quic(mem)" {
